@@ -24,7 +24,7 @@ Inductive scalar :=
 | Sbool | Schar | Si8 | Si16 | Si32 | Si64 | Si128 | Sisize
 | Su8 | Su16 | Su32 | Su64 | Su128 | Susize | Sf16 | Sf32 | Sf64 | Sf128.
 
-Record sflags := { sf_upstream : bool; sf_fundamental : bool; sf_phantom_data : bool }.
+Record sflags := { sf_upstream : bool; sf_fundamental : bool; sf_phantom_data : bool; sf_one_zst : bool }.
 Record tflags := { tf_auto : bool; tf_marker : bool; tf_upstream : bool; tf_fundamental : bool;
                    tf_non_enumerable : bool; tf_coinductive : bool; tf_object_safe : bool }.
 
@@ -39,6 +39,10 @@ Section Syn.
   | TScalar (s : scalar)
   | TTuple (ts : list ty)
   | TRef (m : bool) (l : lt) (t : ty)          (* [m = true]: [&'a mut T] *)
+  | TRaw (m : bool) (t : ty)                   (* [*mut T] / [*const T] *)
+  | TSlice (t : ty)
+  | TStr
+  | TNever
   with garg := GTy (t : ty) | GLt (l : lt).
 
   Inductive wc :=
@@ -51,6 +55,7 @@ Section Syn.
 
   Inductive item :=
   | IStruct (name : N) (params : list kind) (fl : sflags) (fields : list ty) (wcs : list qwc)
+  | IEnum (name : N) (params : list kind) (fl : sflags) (variants : list (list ty)) (wcs : list qwc)
   | ITrait (name : N) (params : list kind) (fl : tflags) (wcs : list qwc)   (* [params] without Self *)
   | IImpl (params : list kind) (upstream positive : bool) (tr : R) (args : list garg) (self : ty) (wcs : list qwc).
 End Syn.
@@ -63,12 +68,17 @@ Arguments TAdt {V L R} r args.
 Arguments TScalar {V L R} s.
 Arguments TTuple {V L R} ts.
 Arguments TRef {V L R} m l t.
+Arguments TRaw {V L R} m t.
+Arguments TSlice {V L R} t.
+Arguments TStr {V L R}.
+Arguments TNever {V L R}.
 Arguments GTy {V L R} t.
 Arguments GLt {V L R} l.
 Arguments WImpl {V L R} self tr args.
 Arguments WLtOut {V L R} a b.
 Arguments WTyOut {V L R} t l.
 Arguments IStruct {V L R} name params fl fields wcs.
+Arguments IEnum {V L R} name params fl variants wcs.
 Arguments ITrait {V L R} name params fl wcs.
 Arguments IImpl {V L R} params upstream positive tr args self wcs.
 
@@ -97,13 +107,13 @@ Definition ast := list aitem.
 (** ** Tokens *)
 
 Inductive kw :=
-| Kstruct | Ktrait | Kimpl | Kfor | Kwhere | Kforall | Kmut | Kstatic | Kerased
+| Kstruct | Kenum | Ktrait | Kimpl | Kfor | Kwhere | Kforall | Kmut | Kstatic | Kerased
 | Kscalar (s : scalar)
-| Kupstream | Kfundamental | Kphantom_data
+| Kupstream | Kfundamental | Kphantom_data | Kone_zst | Kstr | Kconst
 | Kauto | Kmarker | Knon_enumerable | Kcoinductive | Kobject_safe.
 
 Inductive punct := PLt | PGt | PLParen | PRParen | PLBrace | PRBrace | PLBracket | PRBracket
-                 | PComma | PColon | PAmp | PBang | PHash.
+                 | PComma | PColon | PAmp | PBang | PHash | PStar.
 
 Inductive tok :=
 | KW (k : kw)
@@ -112,4 +122,5 @@ Inductive tok :=
 | LTV (dd ii : nat)       (* ['_D_I] *)
 | SELF
 | FIELD (i : nat)       (* [field_i] *)
+| VARIANT (i : nat)     (* [variant_i] *)
 | P (p : punct).
